@@ -68,7 +68,7 @@ CFG = {
         "invoked. In-code yield points ARE present since round 5: add-only lines `verifYield(k)` (k = 1..8; empty function without the "
         "build tag, VerifYieldHook with it) after a remover's marking, after an adder's validation, before fullyLinked, in randomLevel "
         "between load and CAS, on the found-node paths of readers and updaters, and (7, 8, added in round 7 after seed C04-16 was missed) between an insert's publication / a delete's unlinking and the update of the atomic length counter, i.e. the window in which the counter lags the contents. The harness uses them for SCRIPTED schedules (an "
-        "operation parked inside a window while the others run against it: 15 map + 10 set scenarios x 4 comparator variants, each a "
+        "operation parked inside a window while the others run against it: 17 map + 11 set scenarios x 4 comparator variants, each a "
         "tiny history judged by lin_check/range_ok_b -- deterministic; plus, per variant, one map and one set script that SAMPLE Len() and the number of keys Range reports while calls are parked at points 7 / 8, judged against the counter protocol model C04/LenCounter.v: counter = keys - published-not-counted + removed-not-discounted in every reachable state (C04_len_counter_invariant), hence Len = number of keys when nothing is in flight (C04_len_quiescent), while in flight it reads 0 with a key present and can be negative (C04_len_zero_not_empty_refuted: why a reader must not consult it, seed C04-16)) and, in a quarter of the random rounds, to reschedule at one "
         "point in eight. The random rounds are additionally perturbed from outside (GOMAXPROCS cycling "
         "1/2/4/16, a spinning per-operation barrier that releases all goroutines together in 3 of 4 rounds, seeded "
